@@ -70,11 +70,11 @@ extern "C" void k_node_roundtrip()
   Grid* g = make_grid();
   bool centered = vf_nondet_bool();
   int ind[VF_ND];
-  bool inside = true;
+  int nout = 0; // number of directions in which the index is outside [0,nx)
   for (int d = 0; d < VF_ND; d++)
   {
     ind[d] = vf_range(-VF_IMAX, VF_IMAX);
-    if (ind[d] < 0 || ind[d] >= nx[d]) inside = false;
+    if (ind[d] < 0 || ind[d] >= nx[d]) nout++;
   }
   VectorDouble coor(VF_ND);
   g->indicesToCoordinateInPlace(constvectint(ind, VF_ND), vect(coor.data(), VF_ND));
@@ -87,7 +87,7 @@ extern "C" void k_node_roundtrip()
   int err = g->coordinateToIndicesInPlace(coor, out, centered, EPSILON6);
   for (int d = 0; d < VF_ND; d++)
     vf_assert_id(out[d] == ind[d], "node -> coordinates -> same node");
-  vf_assert_id((err != 0) == !inside, "reported outside <=> node index outside [0,nx)");
+  vf_assert_id((err != 0) == (nout > 0), "reported outside <=> node index outside [0,nx)");
   vf_witness();
 }
 
@@ -128,12 +128,12 @@ extern "C" void k_point_to_cell()
   bool centered = vf_nondet_bool();
   const double eps = EPSILON6;
   int k[VF_ND];
-  bool inside = true;
+  int nout = 0; // number of directions in which the index is outside [0,nx)
   VectorDouble x(VF_ND);
   for (int d = 0; d < VF_ND; d++)
   {
     k[d] = vf_range(-VF_IMAX, VF_IMAX);
-    if (k[d] < 0 || k[d] >= nx[d]) inside = false;
+    if (k[d] < 0 || k[d] >= nx[d]) nout++;
     double xx = VF_X;
     vf_assume(xx < 1.e30 && xx > -1.e30);
     // cell k: [k-1/2, k+1/2]*dx around the node (centered) or [k, k+1]*dx (node = lower corner); strictly
@@ -147,6 +147,6 @@ extern "C" void k_point_to_cell()
   int err = g->coordinateToIndicesInPlace(x, out, centered, eps);
   for (int d = 0; d < VF_ND; d++)
     vf_assert_id(out[d] == k[d], "point is assigned to the cell that contains it");
-  vf_assert_id((err != 0) == !inside, "reported outside <=> containing cell is not in the grid");
+  vf_assert_id((err != 0) == (nout > 0), "reported outside <=> containing cell is not in the grid");
   vf_witness();
 }
